@@ -169,6 +169,12 @@ func (u *Unit) loopHeader(fc *frameCtx, fi *fnInfo, li *loopInfo, st *State, pc 
 			st.iters[k] = &n
 		}
 	}
+	// compiler-generated range counters start at -1 and only grow
+	for _, p := range phis {
+		if p.Comment == "rangeindex" {
+			u.assume(pc, c.Le(c.Int(-1), newVals[p].T))
+		}
+	}
 	// 4. assume the invariant for an arbitrary iteration
 	envH := u.loopEnv(fc, li, st, pc, newVals)
 	for _, inv := range lc.Invariants {
@@ -468,8 +474,8 @@ func (u *Unit) callMayWrite(call *ssa.CallCommon) bool {
 		} else if f.Object() != nil {
 			pkg = f.Object().Pkg()
 		}
-		if con := u.e.contracts[name]; con == nil && u.e.autoTransparent(f) {
-			return u.e.fnWrites(f)
+		if con := u.e.contracts[name]; con == nil && isDeepCopy(f) {
+			return false
 		}
 	} else {
 		return true
